@@ -268,3 +268,72 @@ class AbsFile(io.IOBase):
 
 def install(it):
     pass
+
+
+class AbsRawFile(AbsFile):
+    """A seekable binary file object WITHOUT peek() (io.BytesIO, an unbuffered file), possibly positioned behind other data when it is handed over."""
+
+    def __init__(self, it, segments=(), start=0, **kw):
+        super().__init__(it, segments, **kw)
+        self.i = start
+        self._orig = list(self.segs)
+
+    @property
+    def peek(self):
+        raise AttributeError("peek")
+
+    def __getattr__(self, name):
+        if name == "peek":
+            raise AttributeError(name)
+        return super().__getattr__(name)
+
+    def seekable(self):
+        return True
+
+    def read(self, n=-1):
+        if getattr(self, "_inside", False):
+            raise Unsupported("read after a partial read of an abstract segment (no seek in between)")
+        if self.i < len(self.segs) and getattr(self.segs[self.i][0], "magic", None) is not None and isinstance(n, int) and 0 < n <= 64:
+            # the first bytes of a container / codec segment (its magic, zero padded): the position is then inside that segment until the next seek()
+            self._inside = True
+            return AbsFile.peek(self, n)
+        return super().read(n)
+
+    def _offset_of(self, idx, segs):
+        off = 0
+        for v, n in segs[:idx]:
+            if not isinstance(n, int):
+                raise Unsupported("tell() behind an abstract segment of symbolic length")
+            off += n
+        return off
+
+    def tell(self):
+        return self._offset_of(self.i, self.segs)
+
+    def seek(self, pos, whence=0):
+        pos = self.it.unbase(pos)
+        if not isinstance(pos, int) or not isinstance(self.it.unbase(whence), int):
+            raise Unsupported("seek to a symbolic position")
+        if whence == 1:
+            pos += self.tell()
+        elif whence == 2:
+            raise Unsupported("seek relative to the end of an abstract file")
+        self._inside = False
+        segs, off = list(self._orig), 0
+        for j, (v, n) in enumerate(segs):
+            if off == pos:
+                self.segs, self.i = segs, j
+                return pos
+            if not isinstance(n, int):
+                raise Unsupported("seek behind an abstract segment of symbolic length")
+            if off < pos < off + n:
+                if not isinstance(v, (bytes, bytearray)):
+                    raise Unsupported("seek into an abstract segment")
+                k = pos - off
+                segs[j:j + 1] = [(bytes(v[:k]), k), (bytes(v[k:]), n - k)]
+                self._orig = list(segs)
+                self.segs, self.i = segs, j + 1
+                return pos
+            off += n
+        self.segs, self.i = segs, len(segs)
+        return pos
